@@ -1,5 +1,7 @@
 import CobyqaVerif.Alg.Solve
 import CobyqaVerif.Props.C04
+import CobyqaVerif.Alg.Tcg
+import CobyqaVerif.Model.Arith
 /-!
 Exact (rational) driver for the algebra of the models: `lake env lean --run DriverAlg.lean`.
 Rationals travel as `num/den` (or integers).  Inverses of the interpolation system are supplied by the
@@ -242,6 +244,55 @@ def doBall (n : ℕ) (parts : List String) : String :=
     | _, _, _, _ => "bad-op"
   | _ => "bad-op"
 
+/-! ### C15/C16: the truncated conjugate-gradient loop, exact
+`tcg n fuel | g ; H ; xl ; xu ; delta`   (bounds: `none` or a rational)
+     -> `ok step..` : the step of `Cobyqa.Tcg.tcg` run in exact rational arithmetic with `TINY = 0`, `rtol = 1e-8`,
+        `descThr g = 10 eps n max(1, |g|)` (norm rounded up) and `_alpha_tr` proposed in binary64 and CHECKED exactly
+        (`checkedATr`; `driver_params_ok` shows these parameters meet the hypotheses of the loop theorems) -/
+/-- nearest-ish binary64 value of a rational whose numerator and denominator may have thousands of bits (only used to
+PROPOSE values that are then checked exactly) -/
+def ratToFloat (q : Rat) : Float :=
+  let n := q.num.natAbs
+  let d := q.den
+  let sn := if n.log2 > 64 then n.log2 - 64 else 0
+  let sd := if d.log2 > 64 then d.log2 - 64 else 0
+  let r := (Float.ofNat (n >>> sn) / Float.ofNat (d >>> sd)).scaleB ((sn : Int) - (sd : Int))
+  if q.num < 0 then -r else r
+def floatToRat (x : Float) : Rat := if x.isFinite then Cobyqa.ratOfBits x.toBits.toNat else 0
+
+def proposeATr (n : ℕ) (delta : Rat) (step sd : Fin n → Rat) : Rat :=
+  let a := sd ⬝ᵥ sd
+  let b := step ⬝ᵥ sd
+  let c := delta ^ 2 - step ⬝ᵥ step
+  if a = 0 then -1 else
+  let t := floatToRat (Float.sqrt (ratToFloat (b ^ 2 + a * c)))
+  -- the root without cancellation, as `_alpha_tr` computes it
+  let cand := if b ≤ 0 then (t - b) / a else (if t + b = 0 then -1 else c / (t + b))
+  -- shrink until the exact check passes (the unchecked value is never used: `checkedATr`)
+  let fits : Rat → Bool := fun x => decide (0 ≤ x ∧ (step + x • sd) ⬝ᵥ (step + x • sd) ≤ delta ^ 2)
+  let shrinks : List Rat := [1, 1 - 1 / 2 ^ 45, 1 - 1 / 2 ^ 40, 1 - 1 / 2 ^ 30, 1 - 1 / 2 ^ 20, 1 - 1 / 2 ^ 10, 1 / 2, 1 / 4, 1 / 1024, 0]
+  match shrinks.find? (fun f => fits (cand * f)) with
+  | some f => cand * f
+  | none => -1
+
+def doTcg (n fuel : ℕ) (parts : List String) : String :=
+  match parts with
+  | [g, H, lo, hi, d] =>
+    match ratsOf g, ratsOf H, optsOf lo, optsOf hi, ratsOf d with
+    | some g, some H, some lo, some hi, some d =>
+      if g.size ≠ n || H.size ≠ n * n || lo.size ≠ n || hi.size ≠ n || d.size ≠ 1 then "bad-op" else
+      let P : Cobyqa.Tcg.Prob n Rat :=
+        { H := fun i j => H[i.val * n + j.val]!, g := vecOf g, xl := fun i => lo[i.val]!, xu := fun i => hi[i.val]!, delta := d[0]! }
+      let eps : Rat := 1 / 2 ^ 52
+      let Q : Cobyqa.Tcg.Params n Rat :=
+        { aTr := Cobyqa.Tcg.checkedATr P.delta (proposeATr n P.delta),
+          descThr := fun gr => 10 * eps * n * max 1 (floatToRat (Float.sqrt (ratToFloat (gr ⬝ᵥ gr))) * (1 + 1 / 2 ^ 40)),
+          tiny := 0, rtol := 1 / 100000000 }
+      let st := Cobyqa.Tcg.tcg P Q fuel
+      "ok " ++ " ".intercalate ((listFin n).map fun i => showRat (st i))
+    | _, _, _, _, _ => "bad-op"
+  | _ => "bad-op"
+
 def handleAlg (line : String) : String :=
   match line.splitOn "|" with
   | [h, body] =>
@@ -251,6 +302,7 @@ def handleAlg (line : String) : String :=
     | ["quad", n, p, nf] => match n.toNat?, p.toNat?, nf.toNat? with | some n, some p, some nf => doQuad n p nf parts | _, _, _ => "bad-op"
     | ["kkt", n, m, me, r] => match n.toNat?, m.toNat?, me.toNat?, r.toNat? with
       | some n, some m, some me, some r => doKkt n m me r parts | _, _, _, _ => "bad-op"
+    | ["tcg", n, fuel] => match n.toNat?, fuel.toNat? with | some n, some f => doTcg n f parts | _, _ => "bad-op"
     | ["ball", n] => match n.toNat? with | some n => doBall n parts | _ => "bad-op"
     | _ => "bad-op"
   | _ => "bad-op"
